@@ -67,6 +67,82 @@ class AffineSeq:
         self._shape = tuple(v) if not isinstance(v, tuple) else v
 
 
+class SymSeq:
+    """A sequence of SYMBOLIC length n given by its generic element: element i is f(i).  It stands for the time axis of an
+    array; numpy object arrays hold one SymSeq per remaining position (last real axis <-> the sequence).  Element-wise
+    arithmetic and exp/cos/sin are pointwise in i, which is numpy's broadcasting rule along that axis."""
+
+    def __init__(self, n, f):
+        self.n, self.f = n, f
+        self._shape = None
+
+    @staticmethod
+    def arange(n):
+        return SymSeq(n, lambda i: i)
+
+    def _bin(self, o, op):
+        if isinstance(o, SymSeq):
+            if o.n is not self.n:
+                raise TypeError("SymSeq: lengths are not the same term")
+            return SymSeq(self.n, lambda i: op(self.f(i), o.f(i)))
+        if isinstance(o, (np.ndarray, list, tuple)):
+            return NotImplemented
+        return SymSeq(self.n, lambda i: op(self.f(i), o))
+
+    def __mul__(self, o):
+        return self._bin(o, lambda a, b: a * b)
+
+    def __rmul__(self, o):
+        return self._bin(o, lambda a, b: b * a)
+
+    def __add__(self, o):
+        return self._bin(o, lambda a, b: a + b)
+
+    def __radd__(self, o):
+        return self._bin(o, lambda a, b: b + a)
+
+    def __sub__(self, o):
+        return self._bin(o, lambda a, b: a - b)
+
+    def __rsub__(self, o):
+        return self._bin(o, lambda a, b: b - a)
+
+    def __truediv__(self, o):
+        return self._bin(o, lambda a, b: a / b)
+
+    def __neg__(self):
+        return SymSeq(self.n, lambda i: -self.f(i))
+
+    def _un(self, name):
+        def g(i):
+            v = self.f(i)
+            v = sym.to_complex(v) if isinstance(v, (complex, sym.SComplex)) else lift(v)
+            return getattr(v, name)()
+        return SymSeq(self.n, g)
+
+    def exp(self):
+        return self._un("exp")
+
+    def cos(self):
+        return self._un("cos")
+
+    def sin(self):
+        return self._un("sin")
+
+    def __getitem__(self, i):
+        if isinstance(i, int) and i == -1:
+            return self.f(self.n - 1)
+        raise IndexError("SymSeq: only [-1] is modelled")
+
+    @property
+    def shape(self):
+        return self._shape if self._shape is not None else (self.n,)
+
+    @shape.setter
+    def shape(self, v):
+        self._shape = tuple(v)
+
+
 class SymRS:
     """uninterpreted random phases: fresh reals in [0,1)"""
 
@@ -133,6 +209,42 @@ def ob_time_symbolic():
             shp = t.shape
             goals.append(Goal("shape (1,)*%d + (n,)" % (nd + 1), len(shp) == nd + 2 and all(x == 1 for x in shp[:-1])
                               and bool(lift(shp[-1]) == n) if not isinstance(shp[-1], int) else False))
+        return goals
+    return verify(body)
+
+
+@obligation("samples/generate_more_samples_symbolic_n", params=[{"L": L, "shape": sh} for L, sh in ((1, None), (2, None), (2, 2), (2, (2, 1)))],
+            desc="generate_more_samples(n) for SYMBOLIC n >= 1 from any position t0 (time axis abstracted to its generic element, np.arange "
+                 "contract): the result holds, per entry of the configured shape, a sequence of length exactly n whose element i (any "
+                 "0 <= i < n) equals the Jakes sum-of-sinusoids at t0 + i*Ts for the object's phases; new time t0 + n*Ts; phases untouched")
+def ob_samples_symbolic(L, shape):
+    def body(c, it):
+        o, Fd, Ts, rs = _new(c, it, L, shape)
+        t0 = c.var("t0", "real")
+        n = c.var("n", "int")
+        c.assume((n >= 1) & (t0 >= 0))
+        c.inputs.update(t0=t0, n=n)
+        o.fields["_current_time"] = t0
+        phi, psi = o.fields["_phi_l"], o.fields["_psi_l"]
+        it.models[np.arange] = lambda interp, *a, **k: (SymSeq.arange(a[0]) if len(a) == 1 and isinstance(a[0], sym.SNum)
+                                                        else interp.call_real(np.arange, list(a), k))
+        it.call(it.getattr(o, "generate_more_samples"), [n])
+        h = it.call(it.getattr(o, "get_samples"), [])
+        shp = () if shape is None else ((shape,) if isinstance(shape, int) else tuple(shape))
+        goals = [Goal("result: one sequence per entry of the shape", isinstance(h, np.ndarray) and h.shape == shp + (1,)
+                      and all(isinstance(x, SymSeq) for x in h.flat))]
+        if not goals[0].cond:
+            return goals
+        goals.append(Goal("new time == t0 + n*Ts", it.getattr(o, "_current_time") == t0 + n * Ts))
+        goals.append(Goal("phases untouched", o.fields["_phi_l"] is phi and o.fields["_psi_l"] is psi))
+        i = c.var("i", "int")
+        c.assume((i >= 0) & (i < n))
+        for idx in np.ndindex(*shp):
+            seq = h[idx + (0,)]
+            goals.append(Goal("entry %s: length == n" % (idx,), lift(seq.n) == n))
+            v = sym.to_complex(seq.f(i))
+            re, im = _spec_sample(c, phi, psi, Fd, L, t0 + i * Ts, idx)
+            goals.append(Goal("entry %s: element i == Jakes model at t0 + i*Ts" % (idx,), (v.re == re) & (v.im == im)))
         return goals
     return verify(body)
 
@@ -306,8 +418,11 @@ def _model(phi, psi, Fd, L, t):
     return math.sqrt(1.0 / L) * np.sum(np.exp(1j * (2 * np.pi * Fd * np.cos(phi) * t + psi)), axis=0)
 
 
+LONG_REQUESTS = [2 ** 12 + 1, 2 ** 15 - 1, 2 ** 16, 2 ** 16 + 1, 100000, 2 ** 17 - 3, 3 * 2 ** 16 + 5, 2 ** 18 + 1, 10 ** 6 + 7]
+
+
 @obligation("float/long_histories", kind="bounded", timeout=600,
-            desc="binary64: random histories of generate(n<=1e5)/skip requests up to positions 1e10, Ts 1e-9..1, shapes None/int/tuple: "
+            desc="binary64: random histories of generate(n<=1e5, plus long requests around powers of two up to 1e6)/skip requests up to positions 1e10, Ts 1e-9..1, shapes None/int/tuple: "
                  "every request returns exactly n samples of the configured shape (never raises); sample k equals the closed form at "
                  "k*Ts within phase tolerance 2*pi*Fd*Ts*k*1e-9 + 1e-9; |h|<=sqrt(L)(1+1e-12); chunked == one-shot; Fd=0 static")
 def ob_float():
@@ -318,7 +433,8 @@ def ob_float():
         N = 60 if quick() else 600
         for i in range(N):
             yield {"seed": int(r.randint(1 << 30)), "Ts": float(10 ** r.uniform(-9, 0)), "Fd": float(r.choice([0.0, 5.0, 100.0, 10 ** r.uniform(0, 3)])),
-                   "L": int(r.choice([1, 4, 8, 16])), "shape": [None, 3, (2, 2)][i % 3], "big": bool(i % 2)}
+                   "L": int(r.choice([1, 4, 8, 16])), "shape": [None, 3, (2, 2)][i % 3], "big": bool(i % 2),
+                   "long": LONG_REQUESTS[i // 7 % len(LONG_REQUESTS)] if i % 7 == 0 else None}
 
     def check(case):
         rr = np.random.RandomState(case["seed"])
@@ -332,15 +448,17 @@ def ob_float():
         if first.shape != shp + (1,):
             return {"constructor sample shape": list(first.shape)}
         for step in range(8):
-            if rr.rand() < 0.5:
+            if (not (rr.rand() >= 0.5)):
                 m = int(10 ** rr.uniform(0, 9.5 if case["big"] else 4))
                 g.skip_samples_for_next_generation(m)
                 pos += m
-            if rr.rand() < 0.3:
+            if (not (rr.rand() >= 0.3)):
                 g.skip_samples_for_next_generation(7)
                 g.skip_samples_for_next_generation(11)
                 pos += 18
             n = int(10 ** rr.uniform(0, 5 if step == 0 and not quick() else 3))
+            if step == 1 and case.get("long") is not None:
+                n = case["long"]          # long requests: sizes around powers of two and the documented 1e5
             try:
                 g.generate_more_samples(n)
             except Exception as e:
@@ -351,11 +469,11 @@ def ob_float():
             k = pos + np.arange(n)
             ref = _model(phi, psi, Fd, L, (k * Ts).reshape((1,) * (len(shp) + 1) + (n,)))
             tol = 2 * np.pi * Fd * Ts * float(k[-1]) * 1e-9 * math.sqrt(L) + 1e-9
-            if np.abs(h - ref).max() > tol:
+            if (not (np.abs(h - ref).max() <= tol)):
                 return {"sample mismatch": float(np.abs(h - ref).max()), "tol": tol, "pos": int(pos), "n": n}
-            if np.abs(h).max() > math.sqrt(L) * (1 + 1e-12):
+            if (not (np.abs(h).max() <= math.sqrt(L) * (1 + 1e-12))):
                 return {"|h|": float(np.abs(h).max()), "sqrt(L)": math.sqrt(L)}
-            if Fd == 0 and np.abs(h - first[..., :1]).max() > 1e-12:
+            if Fd == 0 and (not (np.abs(h - first[..., :1]).max() <= 1e-12)):
                 return {"Fd=0 not static": float(np.abs(h - first[..., :1]).max())}
             pos += n
         # chunked vs one-shot from identical phases
@@ -368,7 +486,7 @@ def ob_float():
             b.generate_more_samples(n)
             parts.append(b.get_samples())
         ch = np.concatenate(parts, axis=-1)
-        if np.abs(one - ch).max() > 1e-9:
+        if (not (np.abs(one - ch).max() <= 1e-9)):
             return {"chunked != one-shot": float(np.abs(one - ch).max())}
         return None
     return bounded(gen(), check)
@@ -396,10 +514,10 @@ def ob_function():
             return {"raised": repr(e)}
         if h.shape != (N,):
             return {"shape": list(h.shape), "N": N}
-        if abs(t1 - (t0 + N * Ts)) > 1e-9 * (t0 + N * Ts):
+        if (not (abs(t1 - (t0 + N * Ts)) <= 1e-9 * (t0 + N * Ts))):
             return {"new time": t1, "expected": t0 + N * Ts}
         ref = _model(phi, psi, Fd, L, t0 + np.arange(N) * Ts)
-        if np.abs(h - ref).max() > 1e-6:
+        if (not (np.abs(h - ref).max() <= 1e-6)):
             return {"values": float(np.abs(h - ref).max())}
         return None
     return bounded(gen(), check)
